@@ -305,6 +305,12 @@ int live_threads() {
 
 void set_env(const std::string& name, const std::string& value) { g_env[name] = value; }
 void clear_env() { g_env.clear(); }
+static std::map<std::string, unsigned long> g_values;
+void set_value(const std::string& name, unsigned long value) { g_values[name] = value; }
+void clear_values() { g_values.clear(); }
+static size_t g_decomp_clamp = 0;
+void set_decomp_clamp(size_t bytes) { g_decomp_clamp = bytes; }
+size_t decomp_clamp() { return g_quiet > 0 ? 0 : g_decomp_clamp; }
 
 // ---------------------------------------------------------------------------------------------
 // result line
@@ -1218,6 +1224,12 @@ int __wrap_prctl(int option, ...) {
         return 0;
     }
     return __real_prctl(option, a[0], a[1], a[2], a[3]);
+}
+
+unsigned long osmium_verif_value(const char* name, unsigned long default_value) {
+    if (!g_active) { return default_value; }
+    auto it = g_values.find(name);
+    return it == g_values.end() ? default_value : it->second;
 }
 
 char* __wrap_getenv(const char* name) {
